@@ -29,6 +29,8 @@ def pool(chk, mdl):
         texts += ["//h/" + g, "/" + g + "/b", g, "?" + g, "#" + g, "//" + g + "@h", "//a" + g + ".b/", "s://h/a?k=" + g + "#" + g]
     # relative references that start with an essential dot: "./b:c/../x", "./b:c/../../x", ...
     texts += ["./b:c/" + "/".join(t) for n in range(1, 4 if q else 5) for t in __import__("itertools").product(["..", ".", "x", ""], repeat=n)]
+    # the boundary letters of every range test in case folding and percent decoding (A Z a z 0 9, @ [ ` { / : just outside)
+    texts += ["AZaz09+.-://AZaz09-._~%41%5A%61%7A%30%39%2D%2E%5F%7E%40%5B%60%7B%2F%3A@AZaz09.%41%5a%7a/AZ%41%5A%5a?AZ%5A#AZ%7a", "Z://Z", "zZ:/Z", "//Z%5A", "//[vZ.Zz]", "//Zz@Z:1/Z"]
     # a colon anywhere in the segment behind the kept dot, also in first and last position
     texts += [pre + seg + tail for pre in ("./", "%2E/", "x/.././", "../") for seg in (":b", ":", "b:", ":80", "a:b:c") for tail in ("", "/x", "/..", "/../y")]
     for f in sorted(glob.glob(os.path.join(lib.VERIF, "corpus", PID, "*.json"))):
